@@ -5,6 +5,7 @@ import Juniper.Proofs.PipeFifo
 import Juniper.Proofs.PipeNoLoss
 import Juniper.Proofs.PipeLive
 import Juniper.Proofs.PipeQueue
+import Juniper.Proofs.PipeResult
 /-!
 # C10 — stream.Pipe: FIFO per sender, nothing sent-before-close lost, no stuck call
 (and the Pipe clauses of C08: a call that fails on an expired context costs nothing, the close
@@ -350,6 +351,246 @@ example : ∃ st, Reach (init 1 0) st ∧ st.rpc = .drain ∧ (step st (.recv .d
 example : ∃ st, Reach (init 1 0) st ∧ st.rpc = .drain ∧ step st (.recv .dflt) = none ∧ (step st (.handoff 0)).isSome = true :=
   ⟨after (init 1 0) [.startSend 0 5 false, .park 0, .closeSender false, .startNext false, .recv (.recv chSenderDone)],
    reach_after (by decide), by decide, by decide, by decide⟩
+
+/-! ## What the calls return versus what happens to the logs (audit C10 F2)
+
+The clauses of the property speak about *results* ("every value whose Send returned nil before Close"),
+the invariants above about ghost logs (`ackedBC` = committed before the `Close`). `completions st l` is the
+list of calls that return in step `l`, with the result read off the **regenerated arm bodies**
+(`Gen.Pipe.sendBodies`, `trySendBodies1/2`, `nextBodies`, `nextDrainBodies`, `nextEndStmts`); `Res` =
+`nil ctx closed err tru fls fin (val v) unknown`; `endRes st` = what a report returns: `err` if the sender was
+closed with an error (`st.senderErr`), `fin` (`End`) otherwise. The theorems below tie result and log change together,
+arm by arm and then along runs. The facts about the bodies are discharged by `decide` *inside* these
+theorems: a changed `return` statement (e.g. `Send`'s `ctx` arm returning `nil`) makes them fail to
+compile. -/
+
+/-- **`Send` returned nil ⇒ its value was committed (and nothing else returns nil before `Close`).** For a
+pending `Send` of message `m` (polling or parked) and any step `sender i a` of its `select`: the call
+returns in this step, with exactly one result `r`, and
+* the data arm returns `nil`, appends `m` to the channel buffer and to `acked`, and to `ackedBC` iff the
+  sender is not yet closed;
+* every other arm leaves buffer and all logs untouched and returns the context's error (`ctx` arm),
+  `ErrClosedPipe` (`streamDone` arm), or what the sender was closed with (`senderDone` arm: `err`, or
+  `nil` after `Close(nil)` — the only `nil` without a commit, and it needs `senderDone`);
+hence (last conjunct) `r = nil` while the sender is not closed implies `ackedBC` grew by `m`. -/
+theorem send_returns_nil_iff_committed {st st' : State} {i : Nat} {sd : Sender} {m : Msg} {p : Bool} {a : Arm}
+    (hsd : st.senders[i]? = some sd) (hpc : sd.pc = .send m p) (hs : step st (.sender i a) = some st') :
+    ∃ r, completions st (.sender i a) = [(.sender i, r)] ∧
+      ((a = .send chData ∧ r = .nil ∧ st'.buf = st.buf ++ [m] ∧ st'.acked = st.acked ++ [m] ∧
+          st'.ackedBC = (if st.senderDone then st.ackedBC else st.ackedBC ++ [m])) ∨
+       (a ≠ .send chData ∧ st'.buf = st.buf ∧ st'.acked = st.acked ∧ st'.ackedBC = st.ackedBC ∧
+          st'.delivered = st.delivered ∧
+          ((a = .recv chCtx ∧ sd.ctx = true ∧ r = .ctx) ∨ (a = .recv chStreamDone ∧ st.streamDone = true ∧ r = .closed) ∨
+           (a = .recv chSenderDone ∧ st.senderDone = true ∧ r = (if st.senderErr then .err else .nil))))) ∧
+      (r = .nil → st.senderDone = false → st'.ackedBC = st.ackedBC ++ [m]) := by
+  have hB : SendBodies := ⟨by decide, by decide, by decide, by decide, by decide⟩
+  rcases send_arm_result hB hsd hpc hs with ⟨rfl, hc, rfl⟩ | ⟨rfl, hc⟩
+  · refine ⟨.nil, hc, Or.inl ⟨rfl, rfl, rfl, by simp [commit, State.setSender], ?_⟩, ?_⟩
+    · cases hd : st.senderDone <;> simp [commit, State.setSender, hd]
+    · intro _ hd; simp [commit, State.setSender, hd]
+  · rcases hc with ⟨rfl, hx, hc⟩ | ⟨rfl, hx, hc⟩ | ⟨rfl, hx, hc⟩
+    · exact ⟨_, hc, Or.inr ⟨by simp, rfl, rfl, rfl, rfl, Or.inl ⟨rfl, hx, rfl⟩⟩, by intro h; cases h⟩
+    · exact ⟨_, hc, Or.inr ⟨by simp, rfl, rfl, rfl, rfl, Or.inr (Or.inl ⟨rfl, hx, rfl⟩)⟩, by intro h; cases h⟩
+    · exact ⟨_, hc, Or.inr ⟨by simp, rfl, rfl, rfl, rfl, Or.inr (Or.inr ⟨rfl, hx, rfl⟩)⟩,
+        by intro _ hd; rw [hx] at hd; cases hd⟩
+
+/-- non-vacuity: the `Send 7` of `demo` returns `nil` from its data arm; the `Send 9` parked on the full
+buffer returns the close error from its `senderDone` arm -/
+example : completions (init 2 2 |> fun s => after s (demo.take 1)) (.sender 0 (.send chData)) = [(.sender 0, .nil)] ∧
+    completions (after (init 2 2) (demo.take 7)) (.sender 0 (.recv chSenderDone)) = [(.sender 0, .err)] := by decide
+
+/-- **`TrySend` returned true ⇔ its value was committed; false ⇒ nothing happened; the first `select`'s
+`default` does not return.** For a pending `TrySend` of `m` and a step `sender i a`:
+* at the first `select`: `default` returns nothing — the call moves to the second `select`, nothing else
+  changes; the three `Done` arms return the context's error / `ErrClosedPipe` / what the sender was
+  closed with (`err`, or `false` after `Close(nil)`), and change nothing but the call's pc;
+* at the second `select`: the data arm returns `true`, appends `m` to the buffer and to `acked` (to
+  `ackedBC` iff the sender is not yet closed); `default` returns `false` and changes nothing but the pc. -/
+theorem trySend_returns_true_iff_committed {st st' : State} {i : Nat} {sd : Sender} {m : Msg} {a : Arm}
+    (hsd : st.senders[i]? = some sd) (hs : step st (.sender i a) = some st') :
+    (sd.pc = .try1 m →
+      (a = .dflt ∧ completions st (.sender i a) = [] ∧ st' = st.setSender i { sd with pc := .try2 m }) ∨
+      (a ≠ .dflt ∧ st' = st.setSender i { sd with pc := .idle } ∧
+        ((a = .recv chCtx ∧ sd.ctx = true ∧ completions st (.sender i a) = [(.sender i, .ctx)]) ∨
+         (a = .recv chStreamDone ∧ st.streamDone = true ∧ completions st (.sender i a) = [(.sender i, .closed)]) ∨
+         (a = .recv chSenderDone ∧ st.senderDone = true ∧
+            completions st (.sender i a) = [(.sender i, if st.senderErr then .err else .fls)])))) ∧
+    (sd.pc = .try2 m →
+      (a = .send chData ∧ completions st (.sender i a) = [(.sender i, .tru)] ∧ st'.buf = st.buf ++ [m] ∧
+        st'.acked = st.acked ++ [m] ∧ st'.ackedBC = (if st.senderDone then st.ackedBC else st.ackedBC ++ [m])) ∨
+      (a = .dflt ∧ completions st (.sender i a) = [(.sender i, .fls)] ∧
+        st' = st.setSender i { sd with pc := .idle })) := by
+  have hB : TryBodies := ⟨by decide, by decide, by decide, by decide, by decide, by decide, by decide, by decide⟩
+  constructor
+  · intro hpc
+    rcases try1_arm_result hB hsd hpc hs with h | ⟨h1, h2⟩
+    · exact Or.inl h
+    · refine Or.inr ⟨?_, h1, h2⟩
+      rcases h2 with ⟨rfl, _⟩ | ⟨rfl, _⟩ | ⟨rfl, _⟩ <;> simp
+  · intro hpc
+    rcases try2_arm_result hB hsd hpc hs with ⟨rfl, hc, rfl⟩ | h
+    · refine Or.inl ⟨rfl, hc, rfl, by simp [commit, State.setSender], ?_⟩
+      cases hd : st.senderDone <;> simp [commit, State.setSender, hd]
+    · exact Or.inr h
+
+/-- non-vacuity: the `TrySend 8` of `demo` passes its first `select` without returning and returns `true`
+from the second; a `TrySend` on a full buffer returns `false` -/
+example : completions (after (init 2 2) (demo.take 3)) (.sender 1 .dflt) = [] ∧
+    completions (after (init 2 2) (demo.take 4)) (.sender 1 (.send chData)) = [(.sender 1, .tru)] ∧
+    completions (after (init 1 1) [.startSend 0 1 false, .sender 0 (.send chData), .startTry 0 2 false, .sender 0 .dflt])
+      (.sender 0 .dflt) = [(.sender 0, .fls)] := by decide
+
+/-- **A rendez-vous returns success to the sender and the value to `Next`.** In a `handoff i` step the
+call of sender `i` is a `Send` (returns `nil`) or a `TrySend` at its second `select` (returns `true`), `Next`
+returns the value of the message in flight, and that message is appended to `acked` (to `ackedBC` iff the
+sender is not closed) and to `delivered` in the same step. -/
+theorem rendezvous_returns_success_and_value {st st' : State} {i : Nat} {sd : Sender}
+    (hsd : st.senders[i]? = some sd) (hs : step st (.handoff i) = some st') :
+    ∃ m, sd.pc.msg? = some m ∧
+      (((∃ p, sd.pc = .send m p) ∧ completions st (.handoff i) = [(.sender i, .nil), (.recv, .val m.val)]) ∨
+       (sd.pc = .try2 m ∧ completions st (.handoff i) = [(.sender i, .tru), (.recv, .val m.val)])) ∧
+      st'.acked = st.acked ++ [m] ∧ st'.delivered = st.delivered ++ [m] ∧
+      st'.ackedBC = (if st.senderDone then st.ackedBC else st.ackedBC ++ [m]) := by
+  obtain ⟨m, hm, hres, rfl⟩ := handoff_result ⟨by decide, by decide, by decide, by decide, by decide⟩
+    ⟨by decide, by decide, by decide, by decide, by decide, by decide, by decide, by decide⟩
+    ⟨by decide, by decide, by decide, by decide, by decide, by decide, by decide, by decide⟩ (by decide) hsd hs
+  refine ⟨m, hm, hres, by simp [commit, State.setSender], rfl, ?_⟩
+  cases hd : st.senderDone <;> simp [commit, State.setSender, hd]
+
+/-- non-vacuity: a polling `Next` meets a parked `Send 5` on an unbuffered pipe -/
+example : completions (after (init 1 0) [.startSend 0 5 false, .park 0, .startNext false]) (.handoff 0) =
+    [(.sender 0, .nil), (.recv, .val 5)] := by decide
+
+/-- **`Next` returns a value ⇔ `delivered` grows by exactly that value; the report is the close error or
+`End`.** First conjunct (pin): the `senderDone` arm of `pipeStream.Next` as listed in `nextBodies` is the
+drain `select` followed by exactly the statements `nextEndStmts` the model reads the report from. Then, for
+every step `recv a` of the receiver:
+* a data arm (main `select` or drain) returns the value of the head of the buffer and moves that message
+  from the buffer to the end of `delivered`;
+* the `senderDone` arm of the main `select` returns nothing (it enters the drain);
+* the context arm returns the context's error; `delivered` is untouched;
+* the drain's `default` returns no value: it falls through to the report — `err` if the sender was closed
+  with an error, `End` (`fin`) otherwise; `delivered` is untouched. -/
+theorem next_returns_value_iff_delivered {st st' : State} {a : Arm} (hs : step st (.recv a) = some st') :
+    nextBodies.lookup (.recv chSenderDone) =
+      some ("select { case item := <-s.c: return item, nil default: }" :: nextEndStmts) ∧
+    ((∃ m rest, a = .recv chData ∧ st.buf = m :: rest ∧ completions st (.recv a) = [(.recv, .val m.val)] ∧
+        st'.buf = rest ∧ st'.delivered = st.delivered ++ [m]) ∨
+     (a = .recv chSenderDone ∧ st.rpc.isNext = true ∧ st.senderDone = true ∧ completions st (.recv a) = [] ∧
+        st' = { st with rpc := .drain }) ∨
+     (a = .recv chCtx ∧ st.rpc.isNext = true ∧ st.rctx = true ∧ completions st (.recv a) = [(.recv, .ctx)] ∧
+        st' = { st with rpc := .idle }) ∨
+     (a = .dflt ∧ st.rpc = .drain ∧ reportsEnd st (.recv a) = true ∧
+        completions st (.recv a) = [(.recv, endRes st)] ∧ st' = reportEnd st)) := by
+  refine ⟨by decide, ?_⟩
+  rcases recv_result ⟨by decide, by decide, by decide, by decide, by decide, by decide, by decide, by decide⟩ hs with
+    ⟨m, rest, rfl, hb, hc, rfl⟩ | h | h | ⟨rfl, hr, hc, hrep, rfl⟩
+  · exact Or.inl ⟨m, rest, rfl, hb, hc, rfl, rfl⟩
+  · exact Or.inr (Or.inl h)
+  · exact Or.inr (Or.inr (Or.inl h))
+  · exact Or.inr (Or.inr (Or.inr ⟨rfl, hr, hrep, hc, rfl⟩))
+
+/-- non-vacuity: `demo`'s first `Next` returns 7 from the drain, the third reports the close error from
+the drain's `default` -/
+example : completions (after (init 2 2) (demo.take 10)) (.recv (.recv chData)) = [(.recv, .val 7)] ∧
+    completions (after (init 2 2) (demo.take 15)) (.recv .dflt) = [(.recv, .err)] := by decide
+
+/-- **Results versus logs, for every label of the LTS** (environment actions, arms of any call,
+rendez-vous, parking):
+1. either the step commits the message `m` in flight of some sender `i` — `acked` grows by `m`, `ackedBC`
+   too unless the sender is already closed — and that call returns success in this very step (`nil` /
+   `true`); or both logs are untouched and no call returns `true`, and a call returns `nil` only if the
+   sender is closed (`Send`'s `senderDone` arm after `Close(nil)`);
+2. either the step appends one message to `delivered` and `Next` returns exactly that message's value in
+   this step (and nothing else); or `delivered` is untouched and `Next`, if it returns, returns its
+   context's error or — in a reporting step — the close error / `End`. -/
+theorem results_match_logs {st st' : State} {l : Label} (hs : step st l = some st') :
+    ((∃ i sd m, st.senders[i]? = some sd ∧ sd.pc.msg? = some m ∧ st'.acked = st.acked ++ [m] ∧
+        st'.ackedBC = (if st.senderDone then st.ackedBC else st.ackedBC ++ [m]) ∧
+        (l = .handoff i ∨ ∃ a, l = .sender i a) ∧
+        ((.sender i, .nil) ∈ completions st l ∨ (.sender i, .tru) ∈ completions st l)) ∨
+     (st'.acked = st.acked ∧ st'.ackedBC = st.ackedBC ∧
+        ∀ i r, (Who.sender i, r) ∈ completions st l → r ≠ .tru ∧ (r = .nil → st.senderDone = true))) ∧
+    ((∃ m, st'.delivered = st.delivered ++ [m] ∧ deliversValue l = true ∧
+        ∀ r, (Who.recv, r) ∈ completions st l ↔ r = .val m.val) ∨
+     (st'.delivered = st.delivered ∧
+        ∀ r, (Who.recv, r) ∈ completions st l →
+          r = .ctx ∨ (r = endRes st ∧ reportsEnd st l = true))) := by
+  have hB : Bodies := ⟨⟨by decide, by decide, by decide, by decide, by decide⟩,
+    ⟨by decide, by decide, by decide, by decide, by decide, by decide, by decide, by decide⟩,
+    ⟨by decide, by decide, by decide, by decide, by decide, by decide, by decide, by decide⟩, by decide⟩
+  exact ⟨step_commit_results hB hs, step_delivery_results hB hs⟩
+
+/-- non-vacuity: the committing steps of `demo` (positions 1, 4) and its delivering steps (10, 12) -/
+example : (step (after (init 2 2) (demo.take 1)) (.sender 0 (.send chData))).map (·.acked.map (·.val)) = some [7] ∧
+    (step (after (init 2 2) (demo.take 10)) (.recv (.recv chData))).map (·.delivered.map (·.val)) = some [7] := by decide
+
+/-- **Clause 5 over results: every value whose `Send` returned nil (`TrySend`: true) before the sender's
+`Close` is delivered before the end / the close error is reported.** `okBeforeClose s0 ls` lists, along the
+run `ls`, the messages of the calls whose step of return had `(sender i, nil)` or `(sender i, tru)` among
+its `completions` while `senderDone` was still `false` (`Model/Pipe.lean`). For every run from the initial
+state (any schedule, any environment):
+1. in the state reached, each of them is delivered or still in the channel buffer;
+2. if the end has been reported, each of them has been delivered;
+3. if the next step reports (`reportsEnd`), each of them has *already* been delivered (the report itself
+   delivers nothing). -/
+theorem pipe_returned_ok_before_close_is_delivered {n b : Nat} {ls : List Label} {st : State}
+    (hrun : run (init n b) ls = some st) :
+    (∀ m ∈ okBeforeClose (init n b) ls, m ∈ st.delivered ∨ m ∈ st.buf) ∧
+    (st.endReported = true → ∀ m ∈ okBeforeClose (init n b) ls, m ∈ st.delivered) ∧
+    (∀ l st', step st l = some st' → reportsEnd st l = true →
+      st'.delivered = st.delivered ∧ ∀ m ∈ okBeforeClose (init n b) ls, m ∈ st.delivered) := by
+  have hB : Bodies := ⟨⟨by decide, by decide, by decide, by decide, by decide⟩,
+    ⟨by decide, by decide, by decide, by decide, by decide, by decide, by decide, by decide⟩,
+    ⟨by decide, by decide, by decide, by decide, by decide, by decide, by decide, by decide⟩, by decide⟩
+  have hr : Reach (init n b) st := reach_of_run hrun
+  have hsub := okBeforeClose_sub_ackedBC hB hrun
+  refine ⟨fun m hm => (inv_reach (by decide) hr).held m (hsub m hm),
+    fun hend m hm => (pipe_no_loss_before_close hr hend).2 m (hsub m hm), ?_⟩
+  intro l st' hs hrep
+  obtain ⟨_, hdel, hall⟩ := pipe_no_loss_at_report hr hs hrep
+  refine ⟨hdel, fun m hm => ?_⟩
+  rw [← hdel]
+  exact hall m (ackedBC_mono_step hB hs m (hsub m hm))
+
+/-- non-vacuity: along `demo` the calls with 7 and 8 returned success before the `Close` (the `Send 9`
+returned the close error), and the end is reported after both were delivered; the prefix of `demo`
+before the report is a run whose next step reports -/
+example : (okBeforeClose (init 2 2) demo).map (·.val) = [7, 8] ∧
+    (run (init 2 2) demo).map (fun st => (st.endReported, st.delivered.map (·.val))) = some (true, [7, 8]) ∧
+    (run (init 2 2) (demo.take 15)).map (fun st => reportsEnd st (.recv .dflt)) = some true := by decide
+
+/-- **Stickiness over results.** If `Next` reports — the step returns exactly the close error or `End` to
+the receiver — at a moment when no `Send`/`TrySend` is in flight (`Quiet`), then along every continuation
+in which no `Send`/`TrySend` is *started* (`startsSend x = false` for every label; everything else —
+`Next` calls with live or expired contexts, context expiries, the receiver's `Close` — is allowed), every
+`Next` that returns returns its own context's error or the same report again; never a value, never the
+other report. -/
+theorem pipe_end_sticky_results {n b : Nat} {st s1 s2 : State} {l : Label} {ls : List Label}
+    (hr : Reach (init n b) st) (hq : Quiet st) (hs : step st l = some s1) (hrep : reportsEnd st l = true)
+    (hls : ∀ x ∈ ls, startsSend x = false) (hrun : run s1 ls = some s2) :
+    completions st l = [(.recv, endRes st)] ∧
+    ∀ r, (Who.recv, r) ∈ runCompletions s1 ls → r = .ctx ∨ r = endRes st := by
+  have hB : Bodies := ⟨⟨by decide, by decide, by decide, by decide, by decide⟩,
+    ⟨by decide, by decide, by decide, by decide, by decide, by decide, by decide, by decide⟩,
+    ⟨by decide, by decide, by decide, by decide, by decide, by decide, by decide, by decide⟩, by decide⟩
+  have hD : DrainFacts := ⟨by decide, by decide, by decide⟩
+  have h1 := settled_of_quiet_report hD (inv_reach (by decide) hr) hq hs hrep
+  obtain ⟨rfl, hrpc, _, _, rfl⟩ := report_only_when_drained hD hs hrep
+  constructor
+  · rcases recv_result hB.next hs with ⟨_, _, h, _⟩ | ⟨h, _⟩ | ⟨h, _⟩ | ⟨_, _, hc, _, _⟩
+    · cases h
+    · cases h
+    · cases h
+    · exact hc
+  · intro r hrr
+    exact settled_run_results hB h1 hls hrun r hrr
+
+/-- non-vacuity: after the report of `demo` (close error), a `Next` with an expired context returns `ctx`,
+a live one reports the close error again -/
+example : runCompletions (after (init 2 2) demo)
+    [.startNext true, .recv (.recv chCtx), .startNext false, .recv (.recv chSenderDone), .recv .dflt, .closeRecv] =
+    [(.recv, .ctx), (.recv, .err)] := by decide
 
 /-! ## Pipe clauses of C08 -/
 
